@@ -1,5 +1,5 @@
-(* Evaluator for the "conc" engine (C11): CONCHAS sid mid VAL = <t|f per declared field>{|<number of
-   the member set in oneof j, or ->} — what Has / WhichOneof answer to the sequential reader (every
+(* Evaluator for the "conc" engine (C11): CONCHAS sid mid VAL = one t or f per declared field,
+   then for every oneof a bar and the number of the member that is set (or a dash) — what Has / WhichOneof answer to the sequential reader (every
    concurrent reader's answers are compared with the sequential reader's by the runner itself).
    Predicted from the value by Model/LibSpec.v [has_vector]. *)
 open Model
